@@ -21,6 +21,12 @@ theorem skip_guards :
     skipGuards = [("1", ""), ("2", "!dec.scanner.SkipNodes"), ("3", "!dec.scanner.SkipWays"), ("4", "!dec.scanner.SkipRelations")] := by
   decide
 
+/-- the accumulators the element loops start from are new objects with only `Visible` set, as `freshWay` /
+    `freshRel` / `freshNode` are -/
+theorem initial_accumulators_fresh :
+    initialAccumulators = ["way := &osm.Way{Visible: true}", "relation := &osm.Relation{Visible: true}", "n := &osm.Node{Visible: true}"] := by
+  decide
+
 /-- **a reused accumulator carries nothing over**: after an accepted and after a rejected element the
     accumulator is indistinguishable from a new one, whatever the element held -/
 theorem reuse_is_fresh (w : Way) (r : Rel) (n : Node) :
